@@ -8,7 +8,7 @@ Definition err_eqb (a b : err) : bool :=
   match a, b with
   | ErrRemap, ErrRemap | ErrSingleDim, ErrSingleDim | ErrMultiDim, ErrMultiDim | ErrDt, ErrDt | ErrClash, ErrClash
   | ErrN, ErrN | ErrOmega, ErrOmega | ErrCacheDiag, ErrCacheDiag | ErrAddDim, ErrAddDim | ErrAddDup, ErrAddDup
-  | ErrKey, ErrKey => true
+  | ErrKey, ErrKey | ErrDupMap, ErrDupMap | ErrDupIds, ErrDupIds => true
   | _, _ => false end.
 Definition src_eqb (a b : src) : bool :=
   match a, b with
@@ -46,4 +46,4 @@ Definition extend_tally (entries : list entry) (Narg : option nat) (dq : nat) (a
 Definition equiv_idx_tally (ind : list nat) (n : nat) (impl : list nat) : N * N * N :=
   verdict_b (nat_list_eqb (equiv_idx ind n) impl).
 Definition suffix_tally (ids : list string) (qs : list nat) (impl : list string) : N * N * N :=
-  match map_ids ids None qs with Some l => verdict_b (list_eqb String.eqb l impl) | None => (0, 0, 1)%N end.
+  match map_ids ids None qs with inr l => verdict_b (list_eqb String.eqb l impl) | inl _ => (0, 0, 1)%N end.
